@@ -95,4 +95,58 @@ def run(ctx):
                         adv = True
     R.ob(adv, "SIBLING", top.where(), "SIBLING|read_contract_multi|nonce-advance", "the multi-call simulation no longer advances the sender's nonce by one per simulated call",
          sample={"rule": "SIBLING", "site": "read_contract_multi", "row": "nonces[from] = nonce + 1"})
+    # ---- RPC layer: the request's target is mapped to a transaction kind the same way for simulation and execution.
+    # brc20_call executes Call(target) for *every* target and brc20_deploy executes Create; the simulation end points may map
+    # an absent target to Create, but the kind must never depend on the *value* of the target address.
+    import roles
+    from terms import calls_in, bool_edge, leaves
+    fi = [f for f in F.fns.values() if f.name.endswith("TxInfo::from_inscription")]
+    R.floor("from_inscription", len(fi), 1)
+    n_sites = 0
+    handlers = {}
+    for (name, ms, hh, creg) in roles.rpc_methods(F):
+        if name in ("eth_call", "eth_callMany", "eth_estimateGas", "eth_estimateGasMany", "brc20_call", "brc20_deploy", "brc20_balance"):
+            handlers[name] = hh
+
+    def value_dependent(fn, want_param=None):
+        """switches in fn whose condition is an (in)equality test involving an address-like operand and a constant"""
+        out = []
+        for b in range(len(fn.blocks)):
+            t = fn.term(b)
+            if t["k"] != "switch" or fn.is_cleanup(b):
+                continue
+            for sx in fn.succ(b):
+                be = bool_edge(fn, b, sx)
+                if not be:
+                    continue
+                cond = be[0]
+                eqs = [c for c in calls_in(cond) if c[1].endswith("PartialEq::eq") or c[1].endswith("PartialEq::ne") or c[1].endswith("::eq") or c[1].endswith("::ne")]
+                if cond[0] == "bin" and cond[1] in ("Eq", "Ne"):
+                    eqs.append(cond)
+                for e in eqs:
+                    if mentions(e, "ZERO") or mentions(e, "INVALID_ADDRESS") or any(x[0] in ("const", "static") for x in leaves(e)):
+                        if want_param is None or mentions(e, want_param):
+                            out.append((b, show(e)[:80]))
+        return out
+
+    for name, hh in sorted(handlers.items()):
+        for h in hh:
+            for body in F.descendants(h):
+                for c in body.calls():
+                    if not fi or c.target_id != fi[0].id or body.is_cleanup(c.bb):
+                        continue
+                    n_sites += 1
+                    t = W.resolve(F, body, origin(body, c.args[1]))
+                    bad = []
+                    for cc in calls_in(t):
+                        g = F.fn_opt(cc[1])
+                        if g is not None and g.blocks:
+                            bad += ["%s: %s" % (g.name.split("::")[-1], d) for (_, d) in value_dependent(g)]
+                    if t[0] == "phi" or mentions(t, "phi"):
+                        bad += ["%s: %s" % (name, d) for (_, d) in value_dependent(body, ".to")]
+                    R.ob(not bad, "SIBLING", c.where(), "SIBLING|%s|target-kind" % name,
+                         "%s maps the request's target to a transaction kind that depends on the address *value* (%s): brc20_call executes "
+                         "Call(target) for every target, so simulation and execution disagree for that address" % (name, "; ".join(sorted(set(bad)))[:160]),
+                         sample={"rule": "SIBLING", "site": name, "target_kind": show(t)[:70]})
+    R.floor("rpc_txinfo_sites", n_sites, 6)
     return R
